@@ -219,6 +219,42 @@ func init() {
 			return c11ValDatatype(dt), nil
 		},
 	}
+
+	// ---------------------------------------------------------------- attribute message (v3 writer)
+	c11Codecs["attribute"] = c11Codec{
+		enc: func(val json.RawMessage, _ *core.Superblock) ([]byte, error) {
+			var v struct {
+				Name    string   `json:"name"`
+				DT      c11DT    `json:"dt"`
+				Dims    []uint64 `json:"dims"`
+				MaxDims []uint64 `json:"maxdims"`
+				Data    string   `json:"data"`
+			}
+			if err := json.Unmarshal(val, &v); err != nil {
+				return nil, err
+			}
+			name, err := hex.DecodeString(v.Name)
+			if err != nil {
+				return nil, err
+			}
+			data, err := hex.DecodeString(v.Data)
+			if err != nil {
+				return nil, err
+			}
+			dt, err := v.DT.msg()
+			if err != nil {
+				return nil, err
+			}
+			return core.EncodeAttributeMessage(string(name), dt, &core.DataspaceMessage{Dimensions: v.Dims, MaxDims: v.MaxDims}, data)
+		},
+		dec: func(data []byte, sb *core.Superblock) (interface{}, error) {
+			a, err := core.ParseAttributeMessage(data, sb.Endianness)
+			if err != nil {
+				return nil, err
+			}
+			return vl{vBytes([]byte(a.Name)), c11ValDatatype(a.Datatype), c11ValDataspace(a.Dataspace), vOptBytes(a.Data)}, nil
+		},
+	}
 }
 
 type c11DT struct {
